@@ -71,7 +71,7 @@ Definition accept_route_state_x (fs : list feature) (xfs : list xfeature) (r : r
     mkRctx (rc_tour r2) (rc_state r2) false
   else r.
 
-Fixpoint update_nth {A} (i : nat) (g : A -> A) (l : list A) : list A :=
+Fixpoint update_nth {A} (i : nat) (g : A -> A) (l : list A) {struct l} : list A :=
   match l, i with
   | [], _ => []
   | a :: r, O => g a :: r
@@ -106,6 +106,24 @@ Fixpoint accept_solution_loop (fs : list feature) (xfs : list xfeature) (edits :
     | None => Some (map unset (x_updates partial xfs rs1))
     end
   end.
+
+(* ---- the goal's list of feature states: a plain state, or a CombinedFeatureState over several states ---- *)
+Inductive entry := EOne (f : feature) | ECombined (gs : list feature) (xs : list xfeature).
+
+(* CombinedFeatureState::accept_route_state IS accept_route_state_with_states(&self.states, route_ctx): the nested call tests
+   the stale flag (set: the outer call has just cleared the state through state_mut), clears the WHOLE route state again,
+   runs the handlers of its own states and unsets the flag *)
+Definition entry_route (e : entry) (r : rctx) : rctx :=
+  match e with
+  | EOne f => if f_on_route f then refresh tour job value f r else r
+  | ECombined gs xs => accept_route_state_x gs xs r
+  end.
+
+(* GoalContext::accept_route_state over such a list *)
+Definition goal_accept_route_state (es : list entry) (r : rctx) : rctx :=
+  if rc_stale r then
+    unset (fold_left (fun acc e => entry_route e acc) es (mkRctx (rc_tour r) (fun _ => None) true))
+  else r.
 End ProtocolX.
 
 Arguments mkXF {tour value}.
@@ -114,6 +132,8 @@ Arguments xf_prevent {tour value}.
 Arguments xf_read {tour value}.
 Arguments xf_spec {tour value}.
 Arguments xf_scope {tour value}.
+Arguments EOne {tour job value}.
+Arguments ECombined {tour job value}.
 
 (* ================= part 2: the shared reload resource ================= *)
 (* an activity: job id (-1 = vehicle start / end: no job), is_reload_single of its job, resource_capacity_fn of the activity
@@ -137,7 +157,8 @@ Fixpoint ivs_from (idx last_idx : nat) (acts : list sact) (start : nat) : list (
   end.
 Definition intervals_of (t : list sact) : list (nat * nat) := ivs_from 0 (length t - 1) t 0.
 
-Inductive xval := XIntervals (ivs : list (nat * nat)) | XAvail (entries : list (nat * option Z)) | XPanic.
+Inductive xval := XIntervals (ivs : list (nat * nat)) | XAvail (entries : list (nat * option Z)) | XPanic
+               | XTotal (n : Z).      (* a per-tour total: stand-in for the fields of a feature listed before the combined one *)
 
 (* get_total_demand over start..=end: indices outside the tour and activities without a job are skipped *)
 Definition dem_of (a : sact) : Z := if has_job a then match sa_dem a with Some d => d | None => 0 end else 0.
@@ -208,25 +229,25 @@ Definition shared_read (rs : list srctx) (r : srctx) : option xval :=
   end.
 
 (* ---- the same quantity from the bare tours alone ---- *)
-Definition contribs_spec (t : list sact) : list (Z * Z) :=
-  flat_map (fun se => match nth_error t (fst se) with
-                      | Some a => match sa_res a with Some (_, id) => [(id, interval_demand t (fst se) (snd se))] | None => [] end
-                      | None => []
-                      end) (intervals_of t).
+Definition contrib1 (t : list sact) (se : nat * nat) : list (Z * Z) :=
+  match nth_error t (fst se) with
+  | Some a => match sa_res a with Some (_, id) => [(id, interval_demand t (fst se) (snd se))] | None => [] end
+  | None => []
+  end.
+Definition contribs_spec (t : list sact) : list (Z * Z) := flat_map (contrib1 t) (intervals_of t).
 Definition sum_for (id : Z) (cs : list (Z * Z)) : Z :=
   fold_right (fun p acc => if fst p =? id then snd p + acc else acc) 0 cs.
 (* what all reload intervals of all tours draw from resource id; None = no interval uses it *)
 Definition resource_total (ts : list (list sact)) (id : Z) : option Z :=
   let cs := flat_map contribs_spec ts in
   if existsb (fun p => fst p =? id) cs then Some (sum_for id cs) else None.
+Definition entry1 (total : Z -> option Z) (t : list sact) (se : nat * nat) : nat * option Z :=
+  (fst se, match nth_error t (fst se) with
+           | Some a => match sa_res a with Some (cap, id) => option_map (fun d => cap - d) (total id) | None => None end
+           | None => None
+           end).
 Definition avail_spec_entries (ts : list (list sact)) (t : list sact) : list (nat * option Z) :=
-  map (fun se => (fst se, match nth_error t (fst se) with
-                          | Some a => match sa_res a with
-                                      | Some (cap, id) => option_map (fun d => cap - d) (resource_total ts id)
-                                      | None => None
-                                      end
-                          | None => None
-                          end)) (intervals_of t).
+  map (entry1 (resource_total ts) t) (intervals_of t).
 Definition avail_spec (ts : list (list sact)) (t : list sact) : option xval := Some (XAvail (avail_spec_entries ts t)).
 
 (* prevent_resource_consumption: zero for every interval that starts at a resource and holds a job with a resource demand
@@ -255,6 +276,13 @@ Definition shared_shipped : list (xfeature (list sact) xval) := [shared_feature 
 Definition shared_stale_only : list (xfeature (list sact) xval) := [shared_feature XStaleOnly].
 
 Definition no_edits : list srctx -> option (list srctx) := fun _ => None.
+
+(* a per-tour feature listed BEFORE the combined reload feature in the goal (as TransportState is in vrp-pragmatic's goals) *)
+Definition K_TOTAL : nat := 0.
+Definition total_feature : feature (list sact) Z xval :=
+  mkFeature K_TOTAL (fun t => Some (XTotal (Z.of_nat (length t)))) (fun _ => true) true SolStale.
+(* goal = [transport-like; CombinedFeatureState [MultiTripState; SharedResourceState]] *)
+Definition shared_goal : list (entry (list sact) Z xval) := [EOne total_feature; ECombined shared_table shared_shipped].
 
 (* ---- correspondence: every dumped state is a list of tours; per tour the intervals and the availability entries ---- *)
 Definition run_shared (states : list (list (list sact))) : list (list (list (nat * nat) * list (nat * option Z))) :=
